@@ -106,7 +106,9 @@ def mk_point_arith(dim, coll=False):
                     ctx.require(f"{tag}[{i}]", ctx.eq(re_[i], vals[i] * re_[-1]))
             else:
                 ctx.require(f"{tag}:at-infinity", ctx.is_zero(re_[-1]))
-                ctx.require(f"{tag}:direction", R.proportional(ctx, re_[:-1], vals) if any(True for _ in vals) else True)
+                # a point at infinity acts as a direction *vector*: its magnitude matters for later sums, so exact equality
+                for i in range(dim):
+                    ctx.require(f"{tag}:direction[{i}]", ctx.eq(re_[i], vals[i]))
         check("p+q", p + q, [x + y for x, y in zip(P_, Q_)], w)
         check("p-q", p - q, [x - y for x, y in zip(P_, Q_)], w)
         check("c*p", c * p, [c * x for x in P_], 0 if pinf else 1)
